@@ -71,6 +71,8 @@ def run_property(prop, tier, seed):
             if fn.endswith('.json'):
                 os.unlink(os.path.join(rdir, fn))
     timeout_s = 10 if tier == 'quick' else 60
+    if tier == 'thorough':
+        os.environ['PYVC_CHECK_PRUNE'] = '1'      # every branch pruned as infeasible becomes an obligation for the solver portfolio
     budget = 20000 if tier == 'quick' else 400000
     search_seconds = 4 if tier == 'quick' else 60
 
@@ -174,7 +176,7 @@ def run_property(prop, tier, seed):
         witness = None
         reason = r.out_of_subset and f'out of subset: {r.out_of_subset}'
         failed_clauses = sorted({o.meta.get('cname') for o in failed if o.kind == 'post' and o.meta.get('cname')})
-        refuted = [o for o in failed if (o.result or {}).get('verdict') == 'sat']
+        refuted = [o for o in failed if (o.result or {}).get('verdict') == 'sat' and o.kind != 'prune']
         for ob in (refuted if getattr(c, 'searchable', True) else []):
             w = replay_model(c, ob, timeout_s)
             if w is not None and not matches_carve(c, w, known):
